@@ -159,7 +159,11 @@ func (s *schedState) pickAfterBlock(cur *Thread) *Thread {
 	// round robin among library threads (id>0), harness thread last
 	start := cur.id
 	for k := 1; k <= n; k++ {
-		t := e.threads[(start+k)%n]
+		idx := (start + k) % n
+		if e.w.cfg.SchedRev {
+			idx = ((start-k)%n + n) % n // the other rotation: later-created threads first
+		}
+		t := e.threads[idx]
 		if t.id != 0 && t.enabled() {
 			return t
 		}
